@@ -1,6 +1,7 @@
 """Driver for the solver-based checks. See /verif/check for usage and /verif/DESIGN.md §1.3."""
 import argparse, collections, concurrent.futures, fcntl, hashlib, json, os, re, resource, shutil
 import signal, subprocess, sys, time
+import tbmc_replay
 
 ROOT = os.path.dirname(os.path.dirname(os.path.abspath(__file__)))
 HARNESS = os.path.join(ROOT, "harness")
@@ -70,6 +71,27 @@ def parse_registry():
                     jobs.append(Job(mod, m.group(1), meta, bounds, unwind, ln))
                     meta = None
     return jobs
+
+
+BITS = {"B_SINGLE": 1, "B_CHUNK": 2, "B_BUF": 4, "B_SKIP": 8, "B_LEN": 16, "B_NEXT": 32, "0": 0}
+
+
+def tbmc_params(job):
+    """(nt, nops, masks) of a TBMC harness, read from its run2/run_n call."""
+    src = open(os.path.join(HARNESS, "src", job.mod + ".rs")).read()
+    m = re.search(r"fn " + job.fn + r"\(\) \{\s*(run2|run_n)\(\[(.*?)\], \[(.*?)\](?:, (\d+))?", src, re.S)
+    if not m:
+        return None
+
+    def mask(expr):
+        v = 0
+        for tok in expr.split("|"):
+            v |= BITS.get(tok.strip(), 0)
+        return v
+    masks = [mask(x) for x in m.group(2).split(",")]
+    nops = [int(x) for x in m.group(3).split(",")]
+    nt = int(m.group(4)) if m.group(1) == "run_n" else 2
+    return nt, nops[:nt], masks[:nt]
 
 
 # ------------------------------------------------------------------------------------------------
@@ -542,6 +564,20 @@ def main(argv):
         out = []
         for chk in todo:
             rdir, info = make_replay(prop, res, chk, tests, plog)
+            if res["job"].family == "TBMC" and info.get("dir"):
+                # independent replay with real threads under the native deterministic scheduler
+                par = tbmc_params(res["job"])
+                code = open(os.path.join(info["dir"], "testcase.rs")).read()
+                ind = tbmc_replay.run(code, par[0], par[1], par[2], info["dir"]) if par else {"status": "unavailable"}
+                info["independent"] = ind
+                json.dump(ind, open(os.path.join(info["dir"], "independent-replay.json"), "w"), indent=1, default=str)
+                natively_observable = prop in ("C01", "C02", "C03", "C04", "C05", "C06", "C09", "C11")
+                confirmed = ind.get("status") == "confirmed" and any(prop in f for f in ind.get("findings", []))
+                if rdir and natively_observable and ind.get("status") == "not-confirmed":
+                    rdir = None
+                    info["error"] = "the solver's schedule, executed by real threads, does not violate the property"
+                elif rdir and not confirmed:
+                    info["note"] = "accepted on the sequential playback only (" + str(ind.get("status")) + ")"
             out.append((chk, rdir, info))
         return res, cl, out
 
